@@ -80,7 +80,7 @@ def main():
             SEEDED = os.path.join(ROOT, a[6:])
     args = [a for a in sys.argv[2:] if not a.startswith("--")]
     allchecks = "--all" in sys.argv
-    names = sorted(n for n in os.listdir(SEEDED) if os.path.isdir(os.path.join(SEEDED, n)) and (not args or n in args or n.split("-")[0] in args))
+    names = sorted(n for n in os.listdir(SEEDED) if os.path.isdir(os.path.join(SEEDED, n)) and os.path.exists(os.path.join(SEEDED, n, "patch.diff")) and (not args or n in args or n.split("-")[0] in args))
     if not clean_state():
         print("refusing: /repo has uncommitted changes")
         sys.exit(2)
